@@ -1,10 +1,103 @@
 import Dmn.Model.Sexp
+import Dmn.Model.Temporal
 
-/-! Driver handler for C14 — not implemented yet. -/
+/-! Driver handler for C14.
+
+* `(c14 lit <kind> <known> (s …))` — the value the literal denotes in the model; `kind` is one of
+  `date time dt xdt dur at`; `known` tells whether the zone name occurring in the text (if any) is
+  in the zone database (the oracle).
+* `(c14 timenum (c e) (c e) (c e) <none|ns>)` — `time(h, m, s[, offset duration])` from decimals.
+* `(c14 print <known> <value>)` — `string(v)` and the value read back from that text by the
+  constructor of the value's own kind.
+-/
 
 namespace Dmn.Driver.C14
-open Dmn
+open Dmn Dmn.Temporal
 
-def handle (_args : List Sexp) : String := "(error not-implemented)"
+def zoneStr : Zone → String
+  | .utc => "utc"
+  | .localZ => "local"
+  | .offset o => s!"(offset {o})"
+  | .zone n => s!"(zone {Sexp.ofChars n})"
+
+def valueStr : Value → String
+  | .null => "null"
+  | .panic => "panic"
+  | .date d => s!"(date {d.y} {d.m} {d.d})"
+  | .time t => s!"(time {t.h} {t.mi} {t.s} {t.ns} {zoneStr t.z})"
+  | .dateTime x => s!"(dt {x.date.y} {x.date.m} {x.date.d} {x.time.h} {x.time.mi} {x.time.s} {x.time.ns} {zoneStr x.time.z})"
+  | .dtDur n => s!"(dtd {n})"
+  | .ymDur n => s!"(ymd {n})"
+
+def zone? : Sexp → Option Zone
+  | .atom "utc" => some .utc
+  | .atom "local" => some .localZ
+  | .list [.atom "offset", n] => (Sexp.int? n).map .offset
+  | .list [.atom "zone", s] => (Sexp.chars? s).map .zone
+  | _ => none
+
+def value? : Sexp → Option Value
+  | .list [.atom "date", y, m, d] => do
+    pure (.date ⟨← Sexp.int? y, ← Sexp.nat? m, ← Sexp.nat? d⟩)
+  | .list [.atom "time", h, mi, s, ns, z] => do
+    pure (.time ⟨← Sexp.nat? h, ← Sexp.nat? mi, ← Sexp.nat? s, ← Sexp.nat? ns, ← zone? z⟩)
+  | .list [.atom "dt", y, m, d, h, mi, s, ns, z] => do
+    pure (.dateTime ⟨⟨← Sexp.int? y, ← Sexp.nat? m, ← Sexp.nat? d⟩,
+      ⟨← Sexp.nat? h, ← Sexp.nat? mi, ← Sexp.nat? s, ← Sexp.nat? ns, ← zone? z⟩⟩)
+  | .list [.atom "dtd", n] => (Sexp.int? n).map .dtDur
+  | .list [.atom "ymd", n] => (Sexp.int? n).map .ymDur
+  | _ => none
+
+def readBack (zk : List Char → Bool) (v : Value) (text : List Char) : Value :=
+  match v with
+  | .date _ => bifDate text
+  | .time _ => bifTime zk text
+  | .dateTime _ => bifDateTime zk text
+  | .dtDur _ => bifDuration text
+  | .ymDur _ => bifDuration text
+  | .null => .null
+  | .panic => .null
+
+def handle (args : List Sexp) : String :=
+  match args with
+  | [.atom "lit", .atom kind, known, text] =>
+    match Sexp.bool? known, Sexp.chars? text with
+    | some known, some cs =>
+      let zk : List Char → Bool := fun _ => known
+      let v :=
+        if kind == "date" then bifDate cs
+        else if kind == "time" then bifTime zk cs
+        else if kind == "dt" then bifDateTime zk cs
+        else if kind == "xdt" then   -- `FeelDateTime::try_from` alone (xsd:dateTime input)
+          (match parseDateTime zk cs with
+            | some dt => .dateTime dt
+            | none => .null)
+        else if kind == "dur" then bifDuration cs
+        else atLiteral zk cs
+      valueStr v
+    | _, _ => "(error bad-args)"
+  | [.atom "print", known, v] =>
+    match Sexp.bool? known, value? v with
+    | some known, some v =>
+      let zk : List Char → Bool := fun _ => known
+      match printValue v with
+      | .ok text => s!"({Sexp.ofChars text} {valueStr (readBack zk v text)})"
+      | .panic => "(panic null)"
+      | .reject => "(none null)"
+    | _, _ => "(error bad-args)"
+  | [.atom "timenum", h, mi, sec, off] =>
+    let dec? : Sexp → Option Dec := fun x => match x with
+      | .list [c, e] => do pure ⟨← Sexp.int? c, ← Sexp.int? e⟩
+      | _ => none
+    let off? : Option (Option Int) := match off with
+      | .atom "none" => some none
+      | x => (Sexp.int? x).map some
+    match dec? h, dec? mi, dec? sec, off? with
+    | some h, some mi, some sec, some off =>
+      match timeFromNumbers h mi sec off with
+      | some t => valueStr (.time t)
+      | none => "null"
+    | _, _, _, _ => "(error bad-args)"
+  | _ => "(error bad-request)"
 
 end Dmn.Driver.C14
